@@ -188,6 +188,35 @@ Shape_loop == [root |-> "M",
   uniqfb |-> {"C", "L1", "CS", "LS", "S"},
   order |-> <<"C", "L1", "M", "CS", "LS", "S">>]
 
+Shape_diamond == [root |-> "T",
+  blobs |-> {"L", "LA", "LB", "CS", "CA", "CB"},
+  mans |-> ("SH" :> "image") @@ ("OA" :> "image") @@ ("OB" :> "image") @@ ("IA" :> "index") @@ ("IB" :> "index") @@ ("T" :> "index"),
+  kids |-> ("SH" :> <<<<"CS", "config", "", FALSE>>, <<"L", "layer", "", FALSE>>>>) @@
+           ("OA" :> <<<<"CA", "config", "", FALSE>>, <<"LA", "layer", "", FALSE>>>>) @@
+           ("OB" :> <<<<"CB", "config", "", FALSE>>, <<"LB", "layer", "", FALSE>>>>) @@
+           ("IA" :> <<<<"SH", "entry", "linux/amd64", FALSE>>, <<"OA", "entry", "linux/arm64", FALSE>>>>) @@
+           ("IB" :> <<<<"SH", "entry", "linux/amd64", FALSE>>, <<"OB", "entry", "linux/arm", FALSE>>>>) @@
+           ("T" :> <<<<"IA", "entry", "linux/amd64", FALSE>>, <<"IB", "entry", "linux/amd64", FALSE>>>>),
+  refs |-> {},
+  dtags |-> {},
+  fbs |-> {},
+  uniq |-> {"L", "LA", "LB", "CS", "CA", "CB", "OA", "OB", "IA", "IB", "T"},
+  uniqfb |-> {"L", "LA", "LB", "CS", "CA", "CB", "OA", "OB", "IA", "IB", "T"},
+  order |-> <<"L", "LA", "LB", "CS", "CA", "CB", "SH", "OA", "OB", "IA", "IB", "T">>]
+
+Shape_diamond2 == [root |-> "T",
+  blobs |-> {"C", "L"},
+  mans |-> ("M" :> "image") @@ ("I" :> "index") @@ ("T" :> "index"),
+  kids |-> ("M" :> <<<<"C", "config", "", FALSE>>, <<"L", "layer", "", FALSE>>>>) @@
+           ("I" :> <<<<"M", "entry", "linux/amd64", FALSE>>>>) @@
+           ("T" :> <<<<"M", "entry", "linux/amd64", FALSE>>, <<"I", "entry", "linux/amd64", FALSE>>>>),
+  refs |-> {},
+  dtags |-> {},
+  fbs |-> {},
+  uniq |-> {"C", "L", "I", "T"},
+  uniqfb |-> {"C", "L", "I", "T"},
+  order |-> <<"C", "L", "M", "I", "T">>]
+
 Shape_big == [root |-> "M",
   blobs |-> {"C", "LB", "L2"},
   mans |-> ("M" :> "image"),
@@ -216,5 +245,5 @@ Shape_xref == [root |-> "I",
   uniqfb |-> {"C1", "C2", "I", "FB:M1", "FB:M2"},
   order |-> <<"L1", "C1", "C2", "M1", "M2", "I", "X1", "X2">>]
 
-Shapes == ("img" :> Shape_img) @@ ("dup" :> Shape_dup) @@ ("idx2" :> Shape_idx2) @@ ("nested" :> Shape_nested) @@ ("art" :> Shape_art) @@ ("artidx" :> Shape_artidx) @@ ("bentry" :> Shape_bentry) @@ ("docker" :> Shape_docker) @@ ("schema1" :> Shape_schema1) @@ ("ext" :> Shape_ext) @@ ("empty" :> Shape_empty) @@ ("inline" :> Shape_inline) @@ ("dtag" :> Shape_dtag) @@ ("loop" :> Shape_loop) @@ ("big" :> Shape_big) @@ ("xref" :> Shape_xref)
+Shapes == ("img" :> Shape_img) @@ ("dup" :> Shape_dup) @@ ("idx2" :> Shape_idx2) @@ ("nested" :> Shape_nested) @@ ("art" :> Shape_art) @@ ("artidx" :> Shape_artidx) @@ ("bentry" :> Shape_bentry) @@ ("docker" :> Shape_docker) @@ ("schema1" :> Shape_schema1) @@ ("ext" :> Shape_ext) @@ ("empty" :> Shape_empty) @@ ("inline" :> Shape_inline) @@ ("dtag" :> Shape_dtag) @@ ("loop" :> Shape_loop) @@ ("diamond" :> Shape_diamond) @@ ("diamond2" :> Shape_diamond2) @@ ("big" :> Shape_big) @@ ("xref" :> Shape_xref)
 =============================================================================
